@@ -490,4 +490,79 @@ theorem sound_c01Late (tr : Trace) (l : Label) (o : Obs) (n : Nat) (r : RTok)
   · exact h3 h5
   · exact h4 ⟨h5, (hm.ctxd _).mpr ⟨k, hk⟩⟩
 
+/-! ## C02 — each request with an id receives exactly one response; notifications never receive one -/
+
+/-- No request has two responses written successfully, none passes the un-index point P1 of
+processResult twice. -/
+def P_c02Twice (tr : Trace) : Prop :=
+  ∀ r, cnt tr (· == .wret (some r) .ok) ≤ 1 ∧ cnt tr (· == .p1 r) ≤ 1
+
+/-- No response is attempted (write gate W1) for a notification or a cancel notification. -/
+def P_c02NotifAnswered (tr : Trace) : Prop :=
+  ∀ r t e, ReadAt tr r t e → (e = .readNotif ∨ e = .readCancel) → ∀ t', t < t' → evAt tr t' ≠ some (.w1 r)
+
+/-- (End of case.)  Every call that was read got a response attempt. -/
+def P_c02Answered (tr : Trace) : Prop :=
+  ∀ r t id, ReadAt tr r t (.readCall id) → ∃ t', t < t' ∧ evAt tr t' = some (.w1 r)
+
+theorem sound_c02Twice (tr : Trace) (l : Label) (o : Obs) (r : Nat)
+    (h : (monStepT (monAfter {} tr) l o).2 = some (.c02Twice r)) : ¬ P_c02Twice (tr ++ [(l, o)]) := by
+  obtain ⟨m, hm, q, hq, h1⟩ := fires_of_step h
+  intro hP
+  have h2 := (hm.req r q hq).okw
+  have h3 := (hm.req r q hq).p1c
+  have := hP r
+  omega
+
+theorem sound_c02NotifAnswered (tr : Trace) (l : Label) (o : Obs) (r : Nat)
+    (h : (monStepT (monAfter {} tr) l o).2 = some (.c02NotifAnswered r)) :
+    ¬ P_c02NotifAnswered (tr ++ [(l, o)]) := by
+  obtain ⟨m, hm, q, hq, h1, h2⟩ := fires_of_step h
+  intro hP
+  obtain ⟨e, he, hr, hid, hn, hc⟩ := (hm.req r q hq).kind
+  obtain ⟨t', ha, hw⟩ := (hm.req r q hq).w1c.mp h2
+  obtain ⟨t, ht⟩ := exists_readAt _ he
+  refine hP r t e ht ?_ t' ((ht.arrived_iff t').mp ha) hw
+  cases e <;> simp_all [Ev.isRead, Ev.reqId]
+
+theorem monEndT_none {m : Mon} {c : Clause} (h : monEndT m none = some c) :
+    ∃ q r, m.reqs[r]? = some q ∧ q.isNotif = false ∧ q.isCancel = false ∧ q.w1count = 0 ∧
+      (c = .c02Dropped r ∨ c = .c02NoAttempt r) := by
+  obtain ⟨q, r, hq, hf⟩ := zipIdx_findSome h
+  refine ⟨q, r, hq, ?_⟩
+  simp only at hf
+  split at hf
+  · rename_i hc
+    simp only [Bool.and_eq_true, Bool.not_eq_true', beq_iff_eq] at hc
+    refine ⟨hc.1.1, hc.1.2, hc.2, ?_⟩
+    split at hf <;> cases hf
+    · exact .inl rfl
+    · exact .inr rfl
+  · cases hf
+
+/-- End of case: whatever the end-of-case monitor reports (without a harness report), some call never
+got a response attempt. -/
+theorem sound_monEndT_none (tr : Trace) (c : Clause) (h : monEndT (monAfter {} tr) none = some c) :
+    (∃ r, c = .c02Dropped r ∨ c = .c02NoAttempt r) ∧ ¬ P_c02Answered tr := by
+  obtain ⟨q, r, hq, h1, h2, h3, hc⟩ := monEndT_none h
+  refine ⟨⟨r, hc⟩, ?_⟩
+  intro hP
+  have hm := (hist_after tr).1
+  obtain ⟨e, he, hr, hid, hn, hcn⟩ := (hm.req r q hq).kind
+  obtain ⟨t, ht⟩ := exists_readAt _ he
+  have : ∃ id, e = .readCall id := by
+    cases e <;> simp_all [Ev.isRead, Ev.reqId]
+  obtain ⟨id, rfl⟩ := this
+  obtain ⟨t', hlt, hw⟩ := hP r t id ht
+  have := (hm.req r q hq).w1c.mpr ⟨t', (ht.arrived_iff t').mpr hlt, hw⟩
+  omega
+
+theorem sound_c02NoAttempt (tr : Trace) (r : Nat)
+    (h : monEndT (monAfter {} tr) none = some (.c02NoAttempt r)) : ¬ P_c02Answered tr :=
+  (sound_monEndT_none tr _ h).2
+
+theorem sound_c02Dropped (tr : Trace) (r : Nat)
+    (h : monEndT (monAfter {} tr) none = some (.c02Dropped r)) : ¬ P_c02Answered tr :=
+  (sound_monEndT_none tr _ h).2
+
 end Conn
